@@ -74,13 +74,17 @@ def fix(x):
 class Rig:
     """Builds the real doer forest of a config with per-leaf scripts and runs it."""
 
-    def __init__(self, cfg, script, q=0.25, flavours=None, rng=None, release=False):
+    def __init__(self, cfg, script, q=0.25, flavours=None, rng=None, release=False, style="ctor"):
         from hio.base import doing
         self.doing = doing
         # release=True: a class-based doer that is closed by a remove() call asks, from inside its exit(), for the removal of
         # the other doers named in that same call ("an owner releasing its helpers").  They are already out of the
         # scheduler's membership then, so the nested call must change nothing: the model's behaviour is unchanged.
         self.release = release
+        # style: how the run's settings reach the Doist: "ctor" - through the constructor, do() without arguments;
+        # "args" - Doist(tock) then do(doers=, limit=, tyme=); "warm" - like "args" but the same Doist object has already
+        # done another run (other doers, other limit, other tyme): nothing of that run may show in this one
+        self.style = style
         self.removing = None
         self.cfg = cfg
         self.q = q
@@ -115,10 +119,39 @@ class Rig:
                 if all(k in self.objs for k in cfg["kids"][d]):
                     self.objs[d] = self.make_dd(d)
                     pending.remove(d)
-        self.doist = doing.Doist(tock=cfg["Tock"] * q, tyme=cfg["T0"] * q,
-                                 limit=(cfg["Limit"] * q if cfg["Limit"] else None),
-                                 doers=[self.objs[k] for k in cfg["kids"]["R"]])
+        self.runargs = {}
+        if self.style == "ctor":
+            self.doist = doing.Doist(tock=cfg["Tock"] * q, tyme=cfg["T0"] * q,
+                                     limit=(cfg["Limit"] * q if cfg["Limit"] else None),
+                                     doers=[self.objs[k] for k in cfg["kids"]["R"]])
+        else:
+            self.doist = doing.Doist(tock=cfg["Tock"] * q) if self.style == "args" else \
+                doing.Doist(tock=cfg["Tock"] * q, tyme=(cfg["T0"] + 7) * q)
+            self.runargs = dict(doers=[self.objs[k] for k in cfg["kids"]["R"]], tyme=cfg["T0"] * q,
+                                limit=(cfg["Limit"] * q if cfg["Limit"] else None))
         self.objs["R"] = self.doist
+
+    def warmup(self, mode):
+        """an earlier run of the same Doist object: two silent doers, one of them still alive when a limit stops the run"""
+        doing, q, cfg = self.doing, self.q, self.cfg
+
+        def quick(tymth, tock=0.0, **opts):
+            yield tock
+            yield tock
+            return True
+
+        def slow(tymth, tock=0.0, **opts):
+            for _ in range(6):
+                yield tock
+            return False
+        # with a limit the earlier run alternately ends by its limit (done False, a doer force-closed) or completes before a
+        # generous limit (done True); either way the limit differs from this run's
+        n = (3 if sum(len(v) for v in self.script.values()) % 2 else 20)
+        kw = dict(doers=[doing.doify(quick), doing.doify(slow)], limit=(cfg["Tock"] * n * q if cfg["Limit"] else None))
+        if mode == "do":
+            self.doist.do(**kw)
+        else:
+            asyncio.run(self.doist.ado(**kw))
 
     @staticmethod
     def compatible(sc):
@@ -347,10 +380,12 @@ class Rig:
         phase = None
         try:
             with core.watchdog():
+                if self.style == "warm":
+                    self.warmup(mode)
                 if mode == "do":
-                    self.doist.do()
+                    self.doist.do(**self.runargs)
                 else:
-                    asyncio.run(self.doist.ado())
+                    asyncio.run(self.doist.ado(**self.runargs))
             phase = "ok"
         except ValueError as ex:
             phase = "raised"
@@ -594,8 +629,11 @@ def same_run(r1, r2):
     return out
 
 
-def replay(cfg, beh, q=0.25, seed=0, mode="do", flavours=None, release=False):
-    rig = Rig(cfg, beh["script"], q=q, rng=random.Random(seed), flavours=flavours, release=release)
+STYLES = ("ctor", "args", "warm")
+
+
+def replay(cfg, beh, q=0.25, seed=0, mode="do", flavours=None, release=False, style="ctor"):
+    rig = Rig(cfg, beh["script"], q=q, rng=random.Random(seed), flavours=flavours, release=release, style=style)
     return rig.run(mode)
 
 
@@ -667,8 +705,9 @@ def check_replays(ctx, prop, cfg, behs, keys=None, scales=None, modes=("do",), l
         multi = prop == "C06" and any(e["k"] == "recur" and e["o"] == "m" and len(set(e["a"])) > 1 for e in b["log"])
         for mode in (list(modes) + ["do+release"] if multi else modes):
             q = (scales or SCALES)[(i + ctx.seed) % len(scales or SCALES)]
+            style = STYLES[((i + ctx.seed) // len(scales or SCALES)) % len(STYLES)]
             real = replay(cfg, b, q=q, seed=ctx.seed * 1000003 + i, mode="do" if mode == "do+release" else mode,
-                          release=(mode == "do+release"))
+                          release=(mode == "do+release"), style=style)
             reals[mode] = real
             cmpd = compare(cfg, b, real)
             ctx.traces += 1
@@ -678,8 +717,8 @@ def check_replays(ctx, prop, cfg, behs, keys=None, scales=None, modes=("do",), l
                      {"config": label, "script": b["script"], "model_log_head": b["log"][:6], "phase": b["phase"]}
                      if i % 97 == 3 else None)
             bad = [m for k in keys for m in cmpd[k]]
-            case = {"config": cfg, "behaviour": b, "real": real, "mismatches": bad, "q": q, "mode": mode}
-            where = "%s [%s q=%s mode=%s]" % (prop, label, q, mode)
+            case = {"config": cfg, "behaviour": b, "real": real, "mismatches": bad, "q": q, "mode": mode, "style": style}
+            where = "%s [%s q=%s mode=%s style=%s]" % (prop, label, q, mode, style)
             if real["phase"] == "escaped:Hang":
                 # the scheduler did not return: no property of a run can be said to hold on it
                 ctx.violation("%s: the real run did not return within %ss (model: %s)" % (where, core.WATCHDOG_S, b["phase"]), case)
